@@ -461,6 +461,10 @@ func c18Fixed(c *Ctx) {
 		{name: "mixed-line-ends/crlf-lf-lf-lf-crlf", files: map[string]string{"main.zn": "令甲 = 1\r\n\n\n\n\r\n令乙 = 2\n令丙 = ~1\n"}, accept: [][]fr{{{M, 7}}}, syntax: true, caretAt: ""},
 		{name: "mixed-line-ends/runtime-fault", files: map[string]string{"main.zn": "令甲 = 1\r\n\n\n令乙 = 甲 / 0\n"}, accept: [][]fr{{{M, 4}}}},
 		{name: "mixed-line-ends/runtime-fault-in-call", files: map[string]string{"main.zn": "如何坏？\r\n\t令乙 = 1 / 0\r\n\n\n令子 = 1\n（坏）\r\n"}, accept: [][]fr{{{M, 6}, {M, 2}}}},
+		{name: "syntax/after-literal-with-unfinished-escape-before-lf", files: map[string]string{"main.zn": "令甲设为「一`C\n二」\n令乙设为 ）\n"}, accept: [][]fr{{{M, 3}}}, syntax: true, caretAt: ""},
+		{name: "syntax/after-literal-with-unfinished-u-escape-before-cr", files: map[string]string{"main.zn": "令甲设为“一`U+4E\r二”\r令丙 = 1\r令乙设为 ）\r"}, accept: [][]fr{{{M, 4}}}, syntax: true, caretAt: ""},
+		{name: "syntax/after-literal-with-several-unfinished-escapes", files: map[string]string{"main.zn": "令甲设为「`TA\n`S\n`CRL\n尾」\n令乙设为 】\n"}, accept: [][]fr{{{M, 5}}}, syntax: true, caretAt: ""},
+		{name: "runtime/after-literal-with-unfinished-escape-before-lf", files: map[string]string{"main.zn": "令甲 = “一`B\n二`L\n三”\n令乙 = 1 / 0\n"}, accept: [][]fr{{{M, 4}}}},
 		{name: "syntax/indent-two-spaces", files: map[string]string{"main.zn": "令甲 = 1\n如果 甲 == 1：\n  令乙 = 2\n令丙 = 3\n"}, accept: [][]fr{{{M, 3}}}, syntax: true, caretAt: ""},
 		{name: "syntax/indent-six-spaces-later", files: map[string]string{"main.zn": "如果 真：\n    令甲 = 1\n    令乙 = 2\n如果 真：\n      令丙 = 3\n令丁 = 4\n"}, accept: [][]fr{{{M, 5}}}, syntax: true, caretAt: ""},
 		{name: "syntax/indent-tab-in-space-file", files: map[string]string{"main.zn": "如果 真：\n    令甲 = 1\n如果 真：\n\t令乙 = 2\n"}, accept: [][]fr{{{M, 4}}}, syntax: true, caretAt: ""},
